@@ -239,6 +239,9 @@ func (w *c20World) ensure(first bool) error {
 	w.do(gw.Req{Method: "PUT", Path: "/fzv", Query: "versioning", Body: []byte(`<VersioningConfiguration><Status>Enabled</Status></VersioningConfiguration>`)})
 	w.do(gw.Req{Method: "PUT", Path: "/fzb", Query: "policy", Body: []byte(f.subst(c20Bodies["policy"]))})
 	w.do(gw.Req{Method: "PUT", Path: "/fzb", Query: "tagging", Body: []byte(c20Bodies["tagging"])})
+	put("/fzp", nil)
+	w.do(gw.Req{Method: "PUT", Path: "/fzp", Query: "policy", Body: []byte(c20GlobPolicy())})
+	put("/fzp/aaaaaaaaaaaaaaaab", c20Data(3))
 	put("/fzb/o1", c20Data(100), gw.Header{K: "x-amz-meta-a", V: "b"}, gw.Header{K: "x-amz-tagging", V: "t=1"}, gw.Header{K: "Content-Type", V: "text/plain"})
 	put("/fzb/dir/o2", c20Data(10))
 	put("/fzb/big", c20Data(70000))
@@ -688,7 +691,17 @@ func (w *c20World) handle(c c20Case, out c20Outcome) error {
 			if strings.HasPrefix(c.WireMut, "cut:") {
 				what = strings.TrimPrefix(c.WireMut, "cut:")
 			}
+			if strings.HasPrefix(c.WireMut, "size@") {
+				what = "chunk-" + c.WireMut
+			}
+			if c.Class == "policy-glob" || strings.HasPrefix(c.Class, "corpus:policy-glob") {
+				what = "policy-glob"
+				w.wedged["class:policy-glob"] = true
+			}
 			sig = out.Verdict.Kind + ":" + c.Endpoint + ":" + c.Auth + ":" + what
+			if what == "policy-glob" {
+				sig = out.Verdict.Kind + ":" + c.Endpoint + ":policy-glob"
+			}
 			if out.Verdict.Kind == "wedge" {
 				w.wedged[c.Endpoint+"|"+c.Auth] = true
 			}
@@ -705,6 +718,9 @@ func (w *c20World) handle(c c20Case, out c20Outcome) error {
 }
 
 func (w *c20World) isBlocked(c c20Case) bool {
+	if c.Class == "policy-glob" && w.wedged["class:policy-glob"] {
+		return true // one wedge shows the defect; every further one costs a watchdog
+	}
 	if c.WireMut != "" || c.DeclLen != nil {
 		// a class of framing cases that wedged once is not tried again in this run (each try costs a watchdog);
 		// after four wedges of any kind no further framing mutations are sent by this worker
@@ -743,6 +759,9 @@ func c20Corpus() []c20Case {
 		mk("HeadObjectPlain", "head-of-delete-marker-by-id", c20Mut{K: "path", V: []byte("/fzv/dm")}, c20Mut{K: "q+", N: "versionId", V: []byte("{dm.marker}")}),
 		{Endpoint: "PutObjectPlain", Class: "corpus:unsigned-stream-ends-before-final-chunk", Auth: "stream-unsigned-trailer", Cred: "root", Chunks: []int{5}, Trailer: "crc32", WireMut: "cut:crlf:2"},
 		{Endpoint: "PutObjectPlain", Class: "corpus:unsigned-stream-empty", Auth: "stream-unsigned-trailer", Cred: "root", Chunks: []int{5}, Trailer: "crc32", WireMut: "cut:crlf:0"},
+		{Endpoint: "PutObjectPlain", Class: "corpus:signed-chunk-size-2^64-1", Auth: "stream-signed", Cred: "root", Chunks: []int{5}, WireMut: "size@0:ffffffffffffffff"},
+		{Endpoint: "PutObjectPlain", Class: "corpus:signed-trailer-chunk-size-2^63", Auth: "stream-signed-trailer", Cred: "root", Chunks: []int{5}, Trailer: "crc32", WireMut: "size@1:8000000000000000"},
+		{Endpoint: "GetObjectPlain", Class: "corpus:policy-glob-15-stars", Auth: "header", Cred: "user", Muts: []c20Mut{{K: "path", V: []byte("/fzp/" + strings.Repeat("a", 200))}}},
 		{Endpoint: "UploadPartPlain", Class: "corpus:unsigned-stream-ends-after-data", Auth: "stream-unsigned-trailer", Cred: "root", Chunks: []int{5}, Trailer: "crc32", WireMut: "cut:crlf:4"},
 	}
 }
@@ -789,6 +808,11 @@ func c20E2E(a lib.Args, res *lib.Result) error {
 	sysCases = append(sysCases, c20Corpus()...)
 	sysCases = append(sysCases, c20RawCases()...)
 	cuts := c20FramingCuts() // one (operation, mode) class stays on one worker: the class stops at its first wedge
+	for i := range cuts {
+		cuts[i].group = cuts[i].Endpoint + cuts[i].Auth
+	}
+	cuts = append(cuts, c20ChunkSizeCases()...)
+	cuts = append(cuts, c20PolicyGlobCases()...)
 	sysCases = append(sysCases, c20Systematic(!a.Thorough())...)
 	for _, op := range c20Ops { // every valid template once, with every credential class
 		for _, cred := range []string{"root", "user", "anon", "badsecret"} {
@@ -855,7 +879,7 @@ func c20E2E(a lib.Args, res *lib.Result) error {
 			}
 			for _, c := range cuts {
 				var h uint32
-				for _, ch := range c.Endpoint + c.Auth {
+				for _, ch := range c.group {
 					h = h*31 + uint32(ch)
 				}
 				if int(h%uint32(workers)) == wi && !step(c) {
